@@ -164,7 +164,24 @@ def gen_narrow(rng, tier):
                'style': 'narrow-micro', 'alpha': 'index', 'mdtype': rng.choice(['uint8', 'int8', 'int16', 'uint16'])}
 
 
+def gen_snippets(rng, tier):
+    for _ in range(G.budget(8) if tier == 'quick' else 200):
+        k = rng.randint(3, 5)
+        labs, akind = G.alphabet(rng, k=k)
+        rng.shuffle(labs)
+        lag = rng.choice([1, 2, 3])
+        micro = [chain(rng, labs, rng.randint(60 * k, 100 * k))] + [chain(rng, labs, lag + 1) for _ in range(rng.randint(10, 70))]
+        present = sorted({v for t in micro for v in t})
+        nm = rng.randint(2, len(present))
+        mlabs, _ = G.alphabet(rng, k=nm)
+        f = lump(rng, present, nm, mlabs)
+        yield {'macro': [[f[v] for v in t] for t in micro], 'micro': micro, 'pos': rng.random() < 0.5, 'lag': lag,
+               'style': 'snippets', 'alpha': akind}
+
+
 def gen(rng, tier):
+    for case in gen_snippets(rng, tier):
+        yield case
     for case in gen_narrow(rng, tier):
         yield case
     for case in gen_late(rng, tier):
